@@ -18,4 +18,4 @@ for p in "$@"; do
 done
 git -C /repo checkout -- .
 rm -rf /verif/evidence; mv /tmp/try_mutant.evidence.$$ /verif/evidence
-cd /verif && git status --porcelain replays | awk '{print $2}' | xargs -r rm -f
+cd /verif && git status --porcelain replays | awk '{print $2}' | grep -v '^replays/fixed/' | xargs -r rm -f
